@@ -69,7 +69,10 @@ def gen_kind(rng, idx: int) -> dict:
         fams.insert(0, (1, 1))
     ap = [f for f in fams if rng.chance(0.25) and f[1] in (1, 4, 128) and f[0] in (1, 2)]
     return {'idx': idx, 'peer_ip': f'10.0.0.{2 + idx}', 'peer_as': rng.choice([65001, 65002]) if not asn4 else rng.choice([65001, 65002, 4200000002]), 'asn4': asn4, 'families': fams,
-            'addpath': ap, 'extmsg': rng.chance(0.3)}  # fmt: skip
+            'addpath': ap, 'extmsg': rng.chance(0.3),
+            # the other walk through session establishment (exabgp answers the peer's OPEN), and a peer that writes its OPEN in the
+            # RFC 9072 extended format although it would fit the classic one (allowed at any time)
+            'local_auto': rng.chance(0.12), 'open_ext': rng.chance(0.2)}  # fmt: skip
 
 
 def generate(rng, tier: str, index: int) -> dict:
@@ -89,6 +92,9 @@ def generate(rng, tier: str, index: int) -> dict:
                 g = 'open-fuzz'
             items.append({'gen': g, 'seed': rng.randint(1, 1 << 40), 'size': rng.choice([0, 1, 3, 16, 64, 200, 1000, 4000, 4077, 30000, 65000]),
                           'slow': rng.choice([None, None, None, None, [rng.randint(1, 18), rng.choice([0.12, 0.2, 0.35])], [19 + rng.randint(1, 40), rng.choice([0.12, 0.25])]])})
+        if state == 'established' and k['extmsg'] and rng.chance(0.5):
+            # a session that negotiated 65535-byte messages is sent one: valid by construction, far above 4096
+            items.insert(rng.randint(0, len(items)), {'gen': 'valid-unusual', 'style': 'max-size', 'seed': rng.randint(1, 1 << 40), 'size': 65000, 'slow': None})
         scripts.append({'state': state, 'items': items})
     return {'micro_seed': rng.randint(1, 1 << 48), 'knobs': knobs(rng), 'kinds': kinds, 'scripts': scripts, 'gap': rng.choice([0.02, 0.1, 0.3]), 'split_p': rng.choice([0.0, 0.3])}
 
@@ -398,6 +404,7 @@ def build(item: dict, kind: dict) -> tuple[int, bytes, bool]:
         return 4, rb(rng, rng.choice([0, 1, 5])), False
     if g == 'valid-unusual':
         style = rng.choice(['many-unknown', 'max-size', 'empty-values', 'wd-only-max', 'long-path', 'long-path', 'attr-subset', 'attr-subset'])
+        style = item.get('style') or style
         if style == 'attr-subset':
             # a well-formed UPDATE holding any subset of well-formed optional attributes in any order: each is legal alone and in
             # every combination (RFC 6793 OLD-speaker leftovers included on a 2-byte session: AS4_PATH without AS4_AGGREGATOR, ...)
@@ -536,7 +543,7 @@ def execute(plan: dict) -> dict:
         ap = [tuple(f) for f in k['addpath']]
         confs.append(
             {
-                'peer_ip': k['peer_ip'], 'local_ip': LOCAL, 'local_as': 65001, 'peer_as': k['peer_as'], 'router_id': LOCAL, 'hold': 180, 'families': fams, 'adj-rib-in': True,
+                'peer_ip': k['peer_ip'], 'local_ip': LOCAL, 'local_as': 'auto' if k.get('local_auto') and k['asn4'] else 65001, 'peer_as': k['peer_as'], 'router_id': LOCAL, 'hold': 180, 'families': fams, 'adj-rib-in': True,
                 'caps': {'asn4': k['asn4'], 'add-path': 'receive' if ap else 'disable', 'extended-message': k['extmsg'], 'operational': True, 'aigp': True},
                 'addpath_families': ap or None, 'api': {'processes': ['h1'], 'receive': ['parsed', 'update', 'notification', 'open', 'refresh', 'operational']},
             }
@@ -545,6 +552,8 @@ def execute(plan: dict) -> dict:
         if ap:
             spec['addpath'] = [(a, s, 2) for a, s in ap]
         sp = Speaker(w, f'p{k["idx"]}', k['peer_ip'], k['peer_as'], k['peer_ip'], LOCAL, hold=180, caps=speaker_caps(spec))
+        if k.get('open_ext'):
+            sp.open_bytes = lambda s_, sp=sp: R.build_open(sp.asn, sp.hold, sp.router_id, sp.caps, extended=True)
         speakers.append(sp)
     w.boot(config_text([{'name': 'h1'}], confs))
     h = w.procs.helper('h1')
@@ -727,6 +736,10 @@ def judge(w, plan, kinds, speakers, sent, h, unpack_log, violations, probes) -> 
             mine_sent = [r for r in sent[i] if r['sess'] is sess]
             if sess.state == 'closed' and sess.closed_by != 'speaker' and mine_sent and all(r['valid'] for r in mine_sent) and plan['scripts'][i]['state'] == 'established':
                 violations.append(viol('C03/valid-message-refused', f'session {i}.{sess.index} only received messages valid by construction ({[r["item"]["gen"] + ("/slow" if r["item"].get("slow") else "") for r in mine_sent][:4]}) and was ended with NOTIFICATION {sess.notification_rx[:2] if sess.notification_rx else None}', gen=mine_sent[-1]['item']['gen']))
+                return
+            if not mine_sent and sess.notification_rx is not None and sess.notification_rx[0] in (1, 2, 3, 5) and sess.sent_open and plan['scripts'][i]['state'] in ('established', 'openconfirm') and sess.closed_by != 'speaker':
+                # nothing of the script went out on this session: all exabgp saw was the speaker's OPEN (and KEEPALIVE), valid by construction
+                violations.append(viol('C03/valid-message-refused', f'session {i}.{sess.index} had only sent its well-formed OPEN{" (RFC 9072 extended format)" if k.get("open_ext") else ""} and was ended with NOTIFICATION {sess.notification_rx[0]}/{sess.notification_rx[1]}', gen='open'))
                 return
             if sess.state == 'closed':
                 n = sess.notification_rx
